@@ -19,6 +19,7 @@ import (
 	"encoding/base64"
 	"fmt"
 	"io"
+	"sync"
 )
 
 var (
@@ -58,6 +59,9 @@ func Unregister(name string) {
 // Manager manages a provider.
 type Manager struct {
 	p Provider
+
+	// serialises New and Release
+	mu sync.Mutex
 }
 
 // NewManager creates a new manager for a provider.
@@ -75,6 +79,10 @@ func (m *Manager) New(id string) (*Session, error) {
 	if id == "" {
 		id = m.sessionID()
 	}
+
+	m.mu.Lock()
+	defer m.mu.Unlock()
+
 	return m.p.New(id)
 }
 
@@ -86,6 +94,17 @@ func (m *Manager) Get(id string) (*Session, error) {
 // Del deletes a specific session.
 func (m *Manager) Del(id string) {
 	m.p.Del(id)
+}
+
+// Release deletes a session from the store, unless another session has been
+// stored under its ID in the meantime (a successor with the same client ID).
+func (m *Manager) Release(sess *Session) {
+	m.mu.Lock()
+	defer m.mu.Unlock()
+
+	if cur, err := m.p.Get(sess.ID()); err == nil && cur == sess {
+		m.p.Del(sess.ID())
+	}
 }
 
 // Save persists a session.
